@@ -1035,6 +1035,9 @@ func (data *Data) AlterShardKey(database string, rpName string, mst string, shar
 	if msti == nil || msti.MarkDeleted {
 		return ErrMeasurementNotFound
 	}
+	if len(msti.ShardKeys) == 0 {
+		return fmt.Errorf("measurement %s has no shard key", msti.Name)
+	}
 
 	shardKeyInfo := &msti.ShardKeys[len(msti.ShardKeys)-1]
 	ski := &ShardKeyInfo{}
@@ -2529,6 +2532,10 @@ func (data *Data) CreateShardGroup(database, policy string, timestamp time.Time,
 
 	if msti == nil {
 		return errno.NewError(errno.NoMstInDb, database, policy)
+	}
+	if len(msti.ShardKeys) == 0 {
+		// createShards reads ShardKeys[0]: refuse before any id is taken instead of panicking
+		return fmt.Errorf("measurement %s has no shard key", msti.Name)
 	}
 
 	//check index group contain this shard group
